@@ -69,46 +69,31 @@ Proof. intros C l; apply roundtrip_compose. Qed.
 Print Assumptions C15_roundtrip_compose.
 
 (* THE PROPERTY as stated, over every stack (base filesystem|sql under any finite sequence of
-   codec / cache / outbox layers), every content type, every history of put / get (with or without
+   codec / cache / outbox layers, the codecs decoding what they encode), every content type
+   (so every content and size, the empty one included), every history of put / get (with or without
    transaction, any skip) / delete / list / outbox worker steps: each GetPart returns the content of
    the last PutPart of that id or not-found after a delete, GetPartIds lists exactly the live ids. *)
-Definition C15_stack_correct_full : Prop :=
-  forall (C : Type) (cempty : C -> bool) (csize : C -> N) (s : sstate C) (ops : list (op C)),
-    lawful C s -> fresh C s -> outs_ok C [] ops (run C cempty csize s ops).
+Theorem C15_stack_correct :
+  forall (C : Type) (csize : C -> N) (s : sstate C) (ops : list (op C)),
+    lawful C s -> fresh C s -> outs_ok C [] ops (run C csize s ops).
+Proof. intros C cs s ops. apply stack_correct_lawful. Qed.
+Print Assumptions C15_stack_correct.
 
-(* refuted on the faithful model: the SQL part store stores NO row for a zero-length part, so the
-   part reads as not found (and is not listed) instead of reading as empty *)
-Theorem C15_stack_correct_refuted : ~ C15_stack_correct_full.
-Proof. exact stack_correct_refuted. Qed.
-Print Assumptions C15_stack_correct_refuted.
-
-(* the strongest true statement: the property holds for every history whose put contents are
-   accepted by the stack: every codec on the path decodes what it encoded and no zero-length
-   content reaches a SQL base *)
-Theorem C15_stack_correct_partial :
-  forall (C : Type) (cempty : C -> bool) (csize : C -> N) (s : sstate C) (ops : list (op C)),
-    fresh C s ->
-    Forall (fun o => match o with OPut _ c _ => accepts C cempty s c | _ => True end) ops ->
-    outs_ok C [] ops (run C cempty csize s ops).
-Proof. intros C ce cs s ops HF HA. apply stack_correct; [apply fresh_rel; exact HF | exact HA]. Qed.
-Print Assumptions C15_stack_correct_partial.
-
-(* when is every content accepted: always over a filesystem base; over a SQL base when the content
-   is non-empty or at least one codec frames it and codecs never emit zero bytes *)
-Theorem C15_accepted_contents :
-  forall (C : Type) (cempty : C -> bool) (s : sstate C), lawful C s ->
-    (base_of C s = BFs -> forall c, accepts C cempty s c) /\
-    ((forall k, In k (codecs C s) -> forall x, cempty (enc k x) = false) ->
-     forall c, cempty c = false \/ codecs C s <> [] -> accepts C cempty s c).
-Proof. intros C ce s HL. split; [apply accepts_fs; exact HL | apply accepts_sql; exact HL]. Qed.
-Print Assumptions C15_accepted_contents.
+(* the same from any reachable state: the invariant and the abstraction are preserved *)
+Theorem C15_stack_correct_from :
+  forall (C : Type) (csize : C -> N) (s : sstate C) (m : amap C) (ops : list (op C)),
+    rel C s m ->
+    Forall (fun o => match o with OPut _ c _ => accepts C s c | _ => True end) ops ->
+    outs_ok C m ops (run C csize s ops).
+Proof. intros C cs s m ops. apply stack_correct. Qed.
+Print Assumptions C15_stack_correct_from.
 
 (* an outbox worker step (any number of them, at any point) never changes what GetPart returns *)
 Theorem C15_worker_invisible :
-  forall (C : Type) (cempty : C -> bool) (csize : C -> N) (s : sstate C) (n : nat),
-    Inv C cempty s ->
-    Inv C cempty (iter_tick C cempty csize n s) /\
-    forall id, view C (iter_tick C cempty csize n s) id = view C s id.
+  forall (C : Type) (csize : C -> N) (s : sstate C) (n : nat),
+    Inv C s ->
+    Inv C (iter_tick C csize n s) /\
+    forall id, view C (iter_tick C csize n s) id = view C s id.
 Proof. intros; apply iter_correct; assumption. Qed.
 Print Assumptions C15_worker_invisible.
 
@@ -117,7 +102,7 @@ Example C15_ex_run :
   run_line B"fs cache,comp,outbox P.0.0.1.2000.t;G.0.t.5;D.0.t;G.0.t.0;L.t" = B"ok;0.1.2000+5;ok;nf;ids:".
 Proof. vm_compute. reflexivity. Qed.
 Example C15_ex_sql_empty :
-  run_line B"sql - P.1.1.1.0.t;G.1.t.0;L.t" = B"ok;nf;ids:".
+  run_line B"sql - P.1.1.1.0.t;G.1.t.0;L.t" = B"ok;e;ids:1".
 Proof. vm_compute. reflexivity. Qed.
 Example C15_ex_chunk : chunk 3 B"abcdefgh" = [B"abc"; B"def"; B"gh"].
 Proof. reflexivity. Qed.
